@@ -48,14 +48,32 @@ def _sysroot():
     return subprocess.check_output(["rustc", "+nightly", "--print", "sysroot"], text=True).strip()
 
 
-def _run_driver(repo, out, profile):
+SLOTS = 8
+
+
+def _acquire_slot():
+    """one of SLOTS build slots (each with its own cargo target directory, so that extractions for different
+    source trees - the unchanged tree, mutants in scratch copies - run in parallel); blocks when all are busy"""
+    os.makedirs(CACHE, exist_ok=True)
+    while True:
+        for i in range(SLOTS):
+            fh = open(os.path.join(CACHE, "slot%d.lock" % i), "w")
+            try:
+                fcntl.flock(fh, fcntl.LOCK_EX | fcntl.LOCK_NB)
+                return i, fh
+            except OSError:
+                fh.close()
+        time.sleep(0.2)
+
+
+def _run_driver(repo, out, profile, slot):
     """Runs `cargo +nightly check` with the mirfacts wrapper.  Dependencies are built in a
-    persistent target dir under .cache (keyed by profile); the fingerprint of lc3-ensemble is
+    persistent target dir under .cache (keyed by profile and slot); the fingerprint of lc3-ensemble is
     removed first so that cargo cannot skip the wrapper, and the existence of the fact file
     is asserted afterwards."""
     if not os.path.exists(DRIVER):
         raise FactError("mirfacts driver not built (run MANIFEST.setup_cmd)")
-    tdir = os.path.join(CACHE, "target-" + profile)
+    tdir = os.path.join(CACHE, "target-%s%s" % (profile, "" if slot == 0 else "-%d" % slot))
     os.makedirs(tdir, exist_ok=True)
     prof_dir = os.path.join(tdir, "release" if profile == "release" else "debug")
     fp = os.path.join(prof_dir, ".fingerprint")
@@ -88,26 +106,38 @@ def load(repo="/repo", profile="debug"):
     d = os.path.join(CACHE, "facts")
     os.makedirs(d, exist_ok=True)
     path = os.path.join(d, key + ".json")
-    lock = open(os.path.join(CACHE, "lock"), "w")
-    fcntl.flock(lock, fcntl.LOCK_EX)
-    try:
-        if not os.path.exists(path):
-            tmp = path + ".tmp%d" % os.getpid()
-            t = time.time()
+    if not os.path.exists(path):
+        # per-key lock: two runs on the same tree extract once; runs on different trees go in parallel (build slots)
+        klock = open(os.path.join(d, key + ".lock"), "w")
+        fcntl.flock(klock, fcntl.LOCK_EX)
+        try:
+            if not os.path.exists(path):
+                slot, sfh = _acquire_slot()
+                tmp = path + ".tmp%d" % os.getpid()
+                t = time.time()
+                try:
+                    _run_driver(repo, tmp, profile, slot)
+                    os.replace(tmp, path)
+                finally:
+                    if os.path.exists(tmp):
+                        os.remove(tmp)
+                    fcntl.flock(sfh, fcntl.LOCK_UN)
+                    sfh.close()
+                # keep the cache small: at most 40 fact files (21 MB each), least recently used first
+                ents = sorted((os.path.getmtime(os.path.join(d, f)), f) for f in os.listdir(d) if f.endswith(".json"))
+                for _, f in ents[:-40]:
+                    try:
+                        os.remove(os.path.join(d, f))
+                    except OSError:
+                        pass
+                sys.stderr.write("[facts] extracted %s in %.1fs (slot %d)\n" % (key, time.time() - t, slot))
+        finally:
+            fcntl.flock(klock, fcntl.LOCK_UN)
+            klock.close()
             try:
-                _run_driver(repo, tmp, profile)
-                os.replace(tmp, path)
-            finally:
-                if os.path.exists(tmp):
-                    os.remove(tmp)
-            # keep the cache small: at most 40 fact files (21 MB each)
-            ents = sorted((os.path.getmtime(os.path.join(d, f)), f) for f in os.listdir(d))
-            for _, f in ents[:-40]:
-                os.remove(os.path.join(d, f))
-            sys.stderr.write("[facts] extracted %s in %.1fs\n" % (key, time.time() - t))
-    finally:
-        fcntl.flock(lock, fcntl.LOCK_UN)
-        lock.close()
+                os.remove(os.path.join(d, key + ".lock"))
+            except OSError:
+                pass
     try:
         os.utime(path, None)      # LRU: the eviction above removes the least recently *used* files
     except OSError:
